@@ -6,6 +6,7 @@ import Umya.Model.Reader
 import Umya.Model.ReaderSheet
 import Umya.Model.ReaderStyleView
 import Umya.Model.ReaderBook
+import Umya.Model.CellStore
 import Umya.Model.CoordCanon
 /-
   C03 driver.  `c03 part <namehex> <isxml> <hex>` collects the parts of one package (lexed by
@@ -188,6 +189,17 @@ def nameStrB (p : Umya.Reader.NameB × Umya.Reader.Home) : String :=
 def linkStr (l : Link) : String :=
   s!"{str l.ref}/{if l.external then "e" else "l"}/{hexOf l.target}/{if l.external then orTilde l.location else "~"}/{orTilde l.tooltip}"
 
+/-- the decoder's cells of a sheet as a MAP position -> cell, enumerated by (row, column): the last `<c>` of a position
+    counts (ECMA-376 is silent about repeated positions; `C03_sheet_store` is the theorem behind this view: the store filled
+    from the decoder's list = the store the reader model fills).  A list that is strictly increasing already is left as it
+    is (the store returns it unchanged); sheets with more than `specStoreLimit` cells out of order are left in document order. -/
+def specStoreLimit : Nat := 4000
+
+def specStoreCells (cs : List (CellV × String)) : List (CellV × String) :=
+  let key : CellV × String → Umya.Reader.Pos := fun p => (rowOf p.1.ref, colOf p.1.ref)
+  if Umya.Reader.strictlySorted (cs.map key) || cs.length > specStoreLimit then cs
+  else Umya.Reader.Store.sorted (Umya.Reader.fillStore key cs)
+
 def viewStr (b : BookV) (unst : List (List Text) := []) : String :=
   let sheets := b.sheets.map (fun s => s!"{hexOf s.name}:{s.state}")
   let names := sortStrings (b.names.map nameStr)
@@ -195,7 +207,7 @@ def viewStr (b : BookV) (unst : List (List Text) := []) : String :=
   let per := b.sheets.zipIdx.map fun (s, i) =>
     let u := (unst[i]?).getD []
     let anchors := s.links.map (·.ref)
-    let cells := (s.cells.zip (specFulls tab u s.cells)).filterMap (fun p => cellStrWith p.2 anchors p.1)
+    let cells := (specStoreCells (s.cells.zip (specFulls tab u s.cells))).filterMap (fun p => cellStrWith p.2 anchors p.1)
     let links := sortStrings (s.links.map linkStr)
     let rows := s.rows.filterMap (rowStr b.xfs)
     let tables := sortStrings <| s.tables.map fun t => s!"{hexOf t.name}:{hexOf t.displayName}:{str t.ref}:{"|".intercalate (t.columns.map hexOf)}"
@@ -330,6 +342,15 @@ def keepLastF : List (CellOut × String) → List (CellOut × String)
 def sortedCellsF (os : List (CellOut × String)) : List (CellOut × String) :=
   keepLastF (os.mergeSort fun a b => a.1.row < b.1.row || (a.1.row = b.1.row && a.1.col ≤ b.1.col))
 
+/-- the cells of a sheet as `get_cell_collection_sorted` shows them, through the MODEL of the cell store
+    (`Umya/Model/CellStore.lean`: `fillStore` = `cells.set_fast` per cell, `Store.sorted`; theorems `C03_store_last_wins`,
+    `C03_sheet_store`); the association-list store is quadratic, so sheets with more than 4000 cells go through
+    `sortedCellsF` (sort, keep the last of equals) -/
+def storeLimit : Nat := 4000
+
+def storeCellsF (os : List (CellOut × String)) : List (CellOut × String) :=
+  if os.length ≤ storeLimit then Store.sorted (fillStore (fun p => outKey p.1) os) else sortedCellsF os
+
 /-- the style facts of the cells in document order (`cellStyle`: `get_style(s)`); `none` = panic -/
 def cellFacts (made : List StyleR) (cs : List Node) : Option (List String) :=
   let tab : Array String := (made.map fun st => fullFactsStr (styleFacts st)).toArray
@@ -361,7 +382,7 @@ def mviewStr (sheets : List SheetM) (names : List (NameB × Home)) : String :=
     resolved facts of every cell's style, `get_range()` of every merged range, the links -/
 def toSheetM (sb : SheetB) : SheetM :=
   let fs := sb.styles.map fun st => fullFactsStr (styleFacts st)
-  ⟨sb.sheet, (sortedCellsF (sb.cells.zip fs)).map (fun p => (outToCellV p.1, p.2)), shownMerges sb.merges,
+  ⟨sb.sheet, (storeCellsF (sb.cells.zip fs)).map (fun p => (outToCellV p.1, p.2)), shownMerges sb.merges,
     sb.links.map fun l => { ref := l.ref, external := !l.location, target := l.url, tooltip := if l.tooltip.isEmpty then none else some l.tooltip }⟩
 
 /-- statistics of the shared groups of a `<sheetData>` as the MODEL sees them (informational) -/
@@ -399,7 +420,7 @@ def runModel (parts : List Part) (raws : List (String × List Char)) : MRes :=
         -- `names-outside` lists (hex) up to three name texts of this file outside the wider grammar
         let outside := nm.filter (fun v => !Umya.Annot.nameTextAnyB v)
         .ok (b.sheets.map toSheetM) b.names
-          s!"merges-ok={(ms.filter mergeRefOkB).length}/{ms.length} names-ok={(nm.filter nameTextOkB).length}/{nm.length} merges-canon={(ms.filter Umya.Coord.canonRangeB).length}/{ms.length} names-any-ok={(nm.filter Umya.Annot.nameTextAnyB).length}/{nm.length} names-outside={",".intercalate ((outside.take 3).map hexOf)}"
+          s!"merges-ok={(ms.filter mergeRefOkB).length}/{ms.length} names-ok={(nm.filter nameTextOkB).length}/{nm.length} merges-canon={(ms.filter Umya.Coord.canonRangeB).length}/{ms.length} names-any-ok={(nm.filter Umya.Annot.nameTextAnyB).length}/{nm.length} names-outside={",".intercalate ((outside.take 3).map hexOf)} store-sheets={(b.sheets.filter fun sb => sb.cells.length ≤ storeLimit).length}/{b.sheets.length} overwritten-cells={(b.sheets.map fun sb => if sb.cells.length ≤ storeLimit then sb.cells.length - (fillStore outKey sb.cells).length else 0).sum}"
     | _, _ => .unmodelled "no-workbook-part"
 
 end Model
@@ -436,6 +457,21 @@ def handle (st : St) (args : List String) : St × String :=
     -- the classifier reports it (the implementation is compared with the spec through the view, so the
     -- three agree pairwise on every file that passes)
     let mp := if errs.isEmpty ∧ !pdiff.isEmpty then s!";modelpos={" / ".intercalate (pdiff.take 3)}" else ""
+    -- a duplicated relationship Id (forbidden by OPC Part 2 §9.3.2.2; the decoder resolves an id to the FIRST, the library
+    -- reads the LAST): only what both define is compared - the head of the view (active tab, sheet list, defined names);
+    -- `c03 model` compares the sheets read through the last relationship (model `sheetRel`) with the library
+    let dupOnly := !errs.isEmpty && errs.all (fun e => e.endsWith "duplicate relationship ids")
+    if dupOnly then
+      ({ st with xfs := (match bv with | some b => b.xfs | none => []), unst := unst },
+       s!"errs=dup-rel-ids;;view={(v.splitOn " # ").headD ""} ## {" | ".intercalate (errs.take 5)}")
+    -- rows / cells of a row not strictly ascending (repeated or unordered positions): the decoder reports the sheet as
+    -- outside its domain; its cells are shown as a map (`specStoreCells`: the last `<c>` of a position counts) and the
+    -- reply is marked `errs=order`: the harness expects that mark for the boundary package edge 16 only, every other file
+    -- with it fails as file-outside-the-domain
+    else if !errs.isEmpty && errs.all (fun e => e.endsWith "not strictly ascending") then
+      ({ st with xfs := (match bv with | some b => b.xfs | none => []), unst := unst },
+       s!"errs=order;;view={v} ## {" | ".intercalate (errs.take 5)}")
+    else
     ({ st with xfs := (match bv with | some b => b.xfs | none => []), unst := unst },
      s!"errs={errs.length};{" | ".intercalate (errs.take 5)}{mp};view={v} ## model-vs-spec-cells={bad}/{n} model-vs-spec-positions={pdiff.length}/{nws} rows={nrows} cells={ncells} rows-no-r={rowsNoR} cells-no-r={cellsNoR} {" ".intercalate notes}")
   | ["model"] =>
